@@ -1,10 +1,10 @@
 /-
 C01 — machine-checked witnesses.
 
-* F13: `impl Drop for iour::Driver` turns EVERY CQE of the drained completion queue back into a key, also the
-  ones flagged `more`. The model with `drainChecksMore := false` (what the extractor reads from the pinned
-  source) reaches states that violate the C01 statements; with the repaired loop (`drainChecksMore := true`)
-  the same event lists are harmless.
+* F13 (repaired in /repo by 4ea6d14): before the repair `impl Drop for iour::Driver` turned EVERY CQE of the drained
+  completion queue back into a key, also the ones flagged `more`. The model with `drainChecksMore := false` (what
+  the extractor read from the pre-fix source) reaches states that violate the C01 statements; with the repaired
+  loop (`drainChecksMore := true`, what it reads now) the same event lists are harmless.
 * the order of the statements of that `Drop` matters: with "free in-flight keys" before "close ring" an
   operation is freed while the kernel still has it in flight and the ring is open.
 -/
@@ -14,10 +14,11 @@ namespace Compio.Cex.C01
 
 open Compio Compio.KeyLife Compio.PollQueues
 
-/-- the configuration of the pinned source, spelled out (so that the witnesses stay checkable after a repair) -/
-def pinned : Cfg := ⟨[.drainCq, .closeRing, .freeInFlight], false⟩
+/-- the configuration of the source BEFORE commits 4ea6d14 (F13) and 0f15c6d (F9), spelled out: the witnesses below
+document the defect that was repaired; `Props/C01.lean` is about `Cfg.gen`, the code as it is now -/
+def pinned : Cfg := ⟨[.drainCq, .closeRing, .freeInFlight], false, false⟩
 
-def repaired : Cfg := ⟨[.drainCq, .closeRing, .freeInFlight], true⟩
+def repaired : Cfg := ⟨[.drainCq, .closeRing, .freeInFlight], true, true⟩
 
 /-- zero-copy send, submitted (`flush`), both CQEs (send result flagged `more`, notification) unseen, the caller
 still holds its key, the proactor is dropped -/
@@ -36,7 +37,7 @@ theorem F13_freed_under_the_caller_counterexample :
 longer exists — use after free / double free (`uaf`) -/
 theorem F13_double_release_counterexample :
     (run pinned (init .iour 4)
-        [.pushSq .zc 6 .wr, .submit, .userCancel 0, .kPost 0 true (.ok 5), .kPost 0 false (.ok 0),
+        [.pushSq .zc 6 .wr, .submit, .userCancel 0 [], .kPost 0 true (.ok 5), .kPost 0 false (.ok 0),
           .dropBegin, .dropStep]).map
       (fun s => s.ops.map fun o => (o.user, o.freed, o.uaf))
     = some [(0, 1, true)] := by rfl
@@ -51,6 +52,8 @@ theorem F13_freed_before_ring_close_counterexample :
 
 /-- with the drain loop skipping `more` CQEs the same runs are fine: the key stays in `in_flight` and is freed
 once, after the ring is closed -/
+theorem generated_cfg_is_repaired : Cfg.gen.drainChecksMore = true ∧ Cfg.gen.cancelPushRaw = true := ⟨rfl, rfl⟩
+
 theorem F13_repaired_ok :
     (run repaired (init .iour 4) (zcHeld ++ [.dropStep, .dropStep, .dropStep, .userDrop 0])).map
       (fun s => (s.hazard, s.ops.map fun o => (o.user, o.rc, o.freed, o.uaf)))
@@ -60,15 +63,15 @@ theorem F13_repaired_ok :
 was dropped would be freed while the kernel still owns its buffer and the ring is open (the next event could be
 the kernel writing into it: `kPost` is still accepted). -/
 theorem free_before_close_counterexample :
-    (run ⟨[.drainCq, .freeInFlight, .closeRing], false⟩ (init .iour 4)
-        [.pushSq .single 0 .rd, .submit, .userCancel 0, .dropBegin, .dropStep, .dropStep]).map
+    (run ⟨[.drainCq, .freeInFlight, .closeRing], true, true⟩ (init .iour 4)
+        [.pushSq .single 0 .rd, .submit, .userCancel 0 [], .dropBegin, .dropStep, .dropStep]).map
       (fun s => (s.ring, s.ops.map fun o => (o.kstat, o.freed)))
     = some (true, [(.inflight, 1)]) := by rfl
 
 /-- … and the kernel's completion is indeed still accepted in that state -/
 theorem free_before_close_kernel_still_writes :
-    ((run ⟨[.drainCq, .freeInFlight, .closeRing], false⟩ (init .iour 4)
-        [.pushSq .single 0 .rd, .submit, .userCancel 0, .dropBegin, .dropStep, .dropStep,
+    ((run ⟨[.drainCq, .freeInFlight, .closeRing], true, true⟩ (init .iour 4)
+        [.pushSq .single 0 .rd, .submit, .userCancel 0 [], .dropBegin, .dropStep, .dropStep,
           .kPost 0 false (.ok 4)]).isSome) = true := by rfl
 
 end Compio.Cex.C01
